@@ -20,6 +20,25 @@
 
 extern ASTNode *g_current_function;  /* Current function being transpiled */
 
+/* Function-typed parameters and lets in scope at the point being transpiled:
+ * there `(f x)` and `f` mean the local, not a top-level function called f */
+#define MAX_FN_VALUE_NAMES 64
+static const char *g_fn_value_names[MAX_FN_VALUE_NAMES];
+static int g_fn_value_count = 0;
+
+static void fn_value_declare(const char *name) {
+    if (name && g_fn_value_count < MAX_FN_VALUE_NAMES) {
+        g_fn_value_names[g_fn_value_count++] = name;
+    }
+}
+
+static bool fn_value_in_scope(const char *name) {
+    for (int i = g_fn_value_count - 1; name && i >= 0; i--) {
+        if (strcmp(g_fn_value_names[i], name) == 0) return true;
+    }
+    return false;
+}
+
 /* =========================================================================
  * GENERIC TYPE NAME HELPERS
  * ========================================================================= */
@@ -933,7 +952,8 @@ static void build_expr(WorkList *list, ASTNode *expr, Environment *env) {
             
             /* Check if it's a function identifier */
             Function *func_def = env_get_function(env, expr->as.identifier);
-            if (func_def && !func_def->is_extern && func_def->body != NULL) {
+            if (func_def && !func_def->is_extern && func_def->body != NULL &&
+                !fn_value_in_scope(expr->as.identifier)) {
                 emit_formatted(list, "nl_%s", expr->as.identifier);
             } else {
                 emit_literal(list, expr->as.identifier);
@@ -2254,6 +2274,10 @@ static void build_expr(WorkList *list, ASTNode *expr, Environment *env) {
                     mapped_name = buf;
                 }
                 mapped_name = map_function_name(mapped_name, env);
+                if (fn_value_in_scope(func_name)) {
+                    /* a call through a parameter or let of function type */
+                    mapped_name = func_name;
+                }
 
                 /* ARC: Check if function returns opaque type requiring manual free
                  * Be very defensive - only apply to extern functions we can safely lookup */
@@ -2996,10 +3020,12 @@ static void build_stmt(WorkList *list, ScopeStack *scopes, ASTNode *stmt, int in
 
             /* Push new scope for this block */
             scope_stack_push(scopes);
+            int saved_fn_value_count = g_fn_value_count;
 
             for (int i = 0; i < stmt->as.block.count; i++) {
                 build_stmt(list, scopes, stmt->as.block.statements[i], indent + 1, env, fn_registry);
             }
+            g_fn_value_count = saved_fn_value_count;
 
             /* Emit cleanup for variables in this scope */
             scope_emit_cleanup(scopes, list, indent + 1);
@@ -3398,6 +3424,9 @@ static void build_stmt(WorkList *list, ScopeStack *scopes, ASTNode *stmt, int in
             /* Register in environment */
             env_define_var_with_type_info(env, stmt->as.let.name, stmt->as.let.var_type,
                                          stmt->as.let.element_type, NULL, stmt->as.let.is_mut, create_void());
+            if (stmt->as.let.var_type == TYPE_FUNCTION) {
+                fn_value_declare(stmt->as.let.name);
+            }
 
             /* Track variable for GC cleanup if needed */
             scope_add_var(scopes, stmt->as.let.name, stmt->as.let.var_type, stmt->as.let.type_name, env);
